@@ -1,5 +1,6 @@
 import LicenseExpr.Lemmas.Sweep
 import LicenseExpr.Lemmas.Lex
+import LicenseExpr.Lemmas.Cover
 /-!
 # C17 — token selection yields disjoint, exactly positioned tokens covering the text
 
@@ -46,6 +47,40 @@ theorem C17_slice (c : Cls) (s : Str) : ∀ p ∈ pieces c s, (s.drop p.start).t
 
 theorem C17_lossless (c : Cls) (s : Str) : ((pieces c s).map (·.text)).flatten = s :=
   pieces_concat c s
+
+/-- **C17 (cover, boundaries, order)**: for every automaton and every text, the tokens of
+    `Trie.tokenize` are in text order and pairwise disjoint, each starts at the start of a word and
+    ends at the end of a word, and every word (non-blank piece) of the text lies inside one of them —
+    inside exactly one, since they are disjoint. -/
+theorem C17_cover (c : Cls) (t : Trie V) (text : Str) :
+    (t.tokenize c text).Pairwise (fun a b => a.e < b.s) ∧
+    (∀ k ∈ t.tokenize c text, ∃ p ∈ wordPieces c text, ∃ q ∈ wordPieces c text,
+        k.s = p.start ∧ k.e = q.stop ∧ p.start ≤ q.start) ∧
+    (∀ p ∈ wordPieces c text, ∃ k ∈ t.tokenize c text, k.s ≤ p.start ∧ p.stop ≤ k.e) :=
+  kept_plus_uncovered_ok text (wordPieces c text) (wordPieces_ok c text) _
+    (C17_ordered_disjoint _)
+    (fun k hk => iter_aligned c t text true k (C17_kept_sub _ k hk))
+
+theorem tok_pairwise_cases (l : List (Tok V)) (h : l.Pairwise (fun a b => a.e < b.s)) (a b : Tok V)
+    (ha : a ∈ l) (hb : b ∈ l) : a = b ∨ a.e < b.s ∨ b.e < a.s := by
+  induction l with
+  | nil => simp at ha
+  | cons x xs ih =>
+    rw [List.pairwise_cons] at h
+    rcases List.mem_cons.mp ha with rfl | ha' <;> rcases List.mem_cons.mp hb with rfl | hb'
+    · exact Or.inl rfl
+    · exact Or.inr (Or.inl (h.1 b hb'))
+    · exact Or.inr (Or.inr (h.1 a ha'))
+    · exact ih h.2 ha' hb'
+
+/-- no word is inside two tokens -/
+theorem C17_once (c : Cls) (t : Trie V) (text : Str) (p : Piece) (k₁ k₂ : Tok V)
+    (h1 : k₁ ∈ t.tokenize c text) (h2 : k₂ ∈ t.tokenize c text) (hp : p.start ≤ p.stop)
+    (c1 : k₁.s ≤ p.start ∧ p.stop ≤ k₁.e) (c2 : k₂.s ≤ p.start ∧ p.stop ≤ k₂.e) : k₁ = k₂ := by
+  rcases tok_pairwise_cases _ (C17_cover c t text).1 k₁ k₂ h1 h2 with h | h | h
+  · exact h
+  · omega
+  · omega
 
 /-- the sweep as it was before the repair (after discarding the current token the next one was skipped):
     kept as an executable definition to show that the repair is needed -/
